@@ -79,6 +79,32 @@ def run_history(job):
     simA = bs.Sim(os.path.join(base, "a"), job["repo"], job["deadline"] + 5)
     rec["root"] = simA.root
     known = set()
+    nclean = [0]
+
+    def against_clean(proj, argv, res):
+        """from-scratch build of `proj` in an empty directory; package results that differ from the incremental ones"""
+        nclean[0] += 1
+        simB = bs.Sim(os.path.join(base, "b%d" % nclean[0]), job["repo"], job["deadline"] + 5)
+        bs.render(proj, simB.root)
+        resB = simB.invoke(develop, argv)
+        out = {"rcB": resB["rc"], "errB": resB["error"], "diffs": None}
+        if res["rc"] == 0 and resB["rc"] == 0 and res["dump"] and resB["dump"]:
+            keyA = {(d["pkg"], d["kind"]): p for p, d in res["dump"]["steps"].items()}
+            diffs = []
+            for p, d in sorted(resB["dump"]["steps"].items()):
+                if d["kind"] != "package":
+                    continue
+                pa = keyA.get((d["pkg"], d["kind"]))
+                sa = bs.snapshot(os.path.join(simA.root, pa)) if pa else None
+                sb = bs.snapshot(os.path.join(simB.root, p))
+                if sa != sb:
+                    diffs.append({"package": d["pkg"], "incremental": sa, "clean": sb, "pathA": pa, "pathB": p})
+            out["diffs"] = diffs
+        elif resB["rc"] != 0:
+            out["tailB"] = resB["stdout"][-1500:]
+        simB.destroy()
+        return out
+
     try:
         last = None
         for i, proj in enumerate(hist):
@@ -128,6 +154,10 @@ def run_history(job):
                     last = (hist[i - 1], argvr, resr, obsr)
                     hist = hist[:i]
                     break
+                # otherwise the history goes on: the reverted state is compared with its clean build right here
+                cp = against_clean(hist[i - 1], argvr, resr)
+                cp["i"] = i - 0.6
+                rec.setdefault("checkpoints", []).append(cp)
             bs.render(proj, simA.root)
             if i > 0 and r.random() < 0.2:
                 # an invocation that leaves stale state by request (--no-deps / --checkout-only) in between
@@ -153,23 +183,11 @@ def run_history(job):
             proj, argv, res, obs = last
             final = {"proj": proj, "argv": [a for a in argv if a != "-f"]}
             # from-scratch build of the final project state in an empty copy
-            simB = bs.Sim(os.path.join(base, "b"), job["repo"], job["deadline"] + 5)
-            bs.render(proj, simB.root)
-            resB = simB.invoke(develop, final["argv"])
-            final["rcA"], final["rcB"] = res["rc"], resB["rc"]
-            final["errA"], final["errB"] = res["error"], resB["error"]
-            if res["rc"] == 0 and resB["rc"] == 0 and res["dump"] and resB["dump"]:
-                keyA = {(d["pkg"], d["kind"]): p for p, d in res["dump"]["steps"].items()}
-                diffs = []
-                for p, d in sorted(resB["dump"]["steps"].items()):
-                    if d["kind"] != "package":
-                        continue
-                    pa = keyA.get((d["pkg"], d["kind"]))
-                    sa = bs.snapshot(os.path.join(simA.root, pa)) if pa else None
-                    sb = bs.snapshot(os.path.join(simB.root, p))
-                    if sa != sb:
-                        diffs.append({"package": d["pkg"], "incremental": sa, "clean": sb, "pathA": pa, "pathB": p})
-                final["diffs"] = diffs
+            cmpB = against_clean(proj, final["argv"], res)
+            final["rcA"], final["rcB"] = res["rc"], cmpB["rcB"]
+            final["errA"], final["errB"] = res["error"], cmpB["errB"]
+            if cmpB["diffs"] is not None:
+                final["diffs"] = cmpB["diffs"]
                 # immediately repeated build of the unchanged project
                 res2 = simA.invoke(develop, final["argv"])
                 det = {p: d for p, d in res["dump"]["steps"].items()}
@@ -180,8 +198,8 @@ def run_history(job):
                 obs2 = bs.observe(simA, res2, known)
                 rec["invs"].append({"i": len(hist), "proj": proj, "argv": final["argv"], "force": False, "rc": res2["rc"],
                                     "error": res2["error"], "log": res2["log"], "obs": obs2, "tail": "", "repeat": True})
-            elif resB["rc"] != 0:
-                final["tailB"] = resB["stdout"][-1500:]
+            elif cmpB["rcB"] != 0:
+                final["tailB"] = cmpB.get("tailB")
             rec["final"] = final
     except bs.OutOfTime:
         rec["truncated"] = True
@@ -219,6 +237,12 @@ def judge_history(ctx, rec):
     for d in rec.get("death_ignored", []):
         ctx.violation("the script of a step died from a signal / failed (%s) but the invocation exits 0 and goes on"
                       % d["fault"], dict(case, fault=d), "script-death-ignored")
+    for cp in rec.get("checkpoints", []):
+        if cp["rcB"] == 0 and cp["diffs"]:
+            d = cp["diffs"][0]
+            ctx.violation("after 'edit, failing build, revert, build' the package result of %s differs from the from-scratch "
+                          "build of the reverted project" % d["package"], dict(case, diff=d, at=cp["i"]),
+                          "incremental-differs-from-clean")
     fin = rec.get("final")
     if not fin:
         if rec["truncated"]:
